@@ -27,6 +27,7 @@ type DB struct {
 	index           *index.ShardedIndex           // 分片索引
 	seqNo           uint64                        // 事务id
 	isMerging       bool                          // merge 执行状态标识
+	mergeMu         sync.Mutex                    // merge 执行期间持有, Close 需等待正在执行的 merge 结束
 	logRecordHeader []byte                        // LogRecord 头部复用缓冲区
 	hintPos         []byte                        // Hint 写入时 Pos 编码复用缓冲区
 	fileLock        *flock.Flock                  // 文件锁
@@ -151,14 +152,20 @@ func Open(options Options) (*DB, error) {
 			for {
 				select {
 				case <-ticker.C:
-					if flushes == db.bytesWrite {
+					// bytesWrite 由写入操作在持有 db.mu 时更新, 此处同样需要持锁读取
+					db.mu.RLock()
+					bytesWrite := db.bytesWrite
+					db.mu.RUnlock()
+					if flushes == bytesWrite {
 						continue
 					}
 					if err := db.Merge(); err != nil {
 						// 记录错误日志
 						fmt.Printf("failed to merge db: %v\n", err)
 					}
+					db.mu.RLock()
 					flushes = db.bytesWrite
+					db.mu.RUnlock()
 				case <-db.closedChan:
 					return
 				}
@@ -330,6 +337,10 @@ func (db *DB) Fold(fn func(key []byte, value []byte) bool) error {
 
 // Close 关闭数据库
 func (db *DB) Close() error {
+	// 等待正在执行的 merge (包括后台 merge 协程发起的) 结束, 避免其仍在读取的数据文件被关闭或解除映射
+	db.mergeMu.Lock()
+	defer db.mergeMu.Unlock()
+
 	db.mu.Lock()
 	defer db.mu.Unlock()
 
